@@ -58,6 +58,11 @@ class ModuleInfo:
         self.src = src
         self.is_pkg = is_pkg
         self.tree = ast.parse(src, filename=rel)
+        try:
+            from .normalize import desugar_match
+            desugar_match(self.tree)          # `match` statements become the if-chains they abbreviate (all analyses see plain ifs)
+        except ImportError:
+            pass
         self.functions = {}
         self.classes = {}
         self.assigns = {}  # top-level simple Name assignments -> value node
